@@ -794,6 +794,19 @@ func (d *Drv) runUnsafe(spec *FSpec, qrels []RelT, prop string) (r qres) {
 			}
 		}
 		if known && d.M.Ents[id].Alive {
+			// a component the entity has although the filter does not ask for it is readable through the query as well
+			// ("if q.Has(id) { q.Get(id) }")
+			for _, c := range d.M.Ents[id].Mask.List() {
+				if spec.Required().Has(c) {
+					continue
+				}
+				if !q.Has(d.ID[c]) {
+					d.viol(prop, "query-has", "unsafe query %s: Has(%s)=false for a component %v has", spec, typeName(c), h)
+				} else if want := d.U.Get(h, d.ID[c]); q.Get(d.ID[c]) != want {
+					d.viol(prop, "query-ptr", "unsafe query %s: Get(%s) (not among the filter's components) for %v is %p, random access gives %p", spec, typeName(c), h, q.Get(d.ID[c]), want)
+				}
+				break // one per entity
+			}
 			qids := q.IDs()
 			if n := qids.Len(); n != d.M.Ents[id].Mask.Len() {
 				d.viol(prop, "query-ids", "unsafe query %s: IDs().Len()=%d for %v, model %d", spec, n, h, d.M.Ents[id].Mask.Len())
